@@ -53,6 +53,8 @@ def run(ctx):
     cases = [circuits.random_case(ctx.rng, max_wires=5, max_ops=12) for _ in range(n)]
     cases += [classical_case(ctx.rng) for _ in range(n // 4)]
     cases += [sweep_case(ctx.rng) for _ in range(n // 3)]
+    cases += [block_case(ctx.rng) for _ in range(n // 4)]
+    cases += eigen_grid(ctx.tier)
     evaluate(ctx, cirq, mods, cases)
 
 
@@ -120,8 +122,142 @@ def sweep_case(rng):
     return c
 
 
+
+class BlockCase(circuits.Case):
+    """A circuit some of whose operations sit inside CircuitOperations with a repetition count: the reference is the flat list of
+    operations with every block written out |r| times (inverted, in reverse order, for r < 0)."""
+
+    def __init__(self, dims, segs):
+        flat = []
+        for seg in segs:
+            if seg[0] == 'op':
+                flat.append(seg[1])
+            else:
+                _, ops_, r = seg
+                body = list(ops_) if r > 0 else [circuits.Op(inverse_of(o.g), o.wires) for o in reversed(ops_)]
+                flat.extend(body * abs(r))
+        super().__init__(dims, flat, ['E'] * len(flat))
+        self.segs = segs
+
+    def key(self):
+        return [self.dims, [[s[0], s[1].key()] if s[0] == 'op' else [s[0], [o.key() for o in s[1]], s[2]] for s in self.segs]]
+
+    def circuit(self, cirq, mods=None):
+        qs = self.qids(cirq)
+        c = cirq.Circuit()
+        on = lambda o: o.g.cirq_gate(cirq, mods).on(*[qs[w] for w in o.wires])
+        for seg in self.segs:
+            if seg[0] == 'op':
+                c.append(on(seg[1]))
+            else:
+                c.append(cirq.CircuitOperation(cirq.FrozenCircuit(on(o) for o in seg[1]), repetitions=seg[2]))
+        idle = [q for q in qs if q not in c.all_qubits()]
+        if idle:
+            c.append(cirq.Moment(cirq.IdentityGate(qid_shape=(q.dimension,)).on(q) for q in idle))
+        return c, qs
+
+
+def inverse_of(g):
+    if g.fam in gates.EIG:
+        return gates.G(g.fam, dict(g.p, e=-g.p['e']), g.shape)
+    if g.fam in ('GlobalPhase', 'Rx', 'Ry', 'Rz'):
+        return gates.G(g.fam, dict(g.p, rads=-g.p['rads']), g.shape)
+    raise ValueError(g.fam)
+
+
+def block_case(rng):
+    """1-3 qubits, a few plain operations and 1-2 repeated blocks on one or two wires; blocks often hold a global-phase operation."""
+    n = rng.randint(1, 3)
+    invertible = ['XPow', 'YPow', 'ZPow', 'HPow', 'Rx', 'Rz'] + (['CZPow', 'CXPow', 'SwapPow', 'ISwapPow'] if n >= 2 else [])
+
+    def draw_op(wires):
+        for _ in range(30):
+            g = gates.draw(rng, rng.choice(invertible))
+            if len(g.shape) <= len(wires):
+                return circuits.Op(g, rng.sample(wires, len(g.shape)))
+    segs = []
+    for _ in range(rng.randint(2, 4)):
+        if rng.random() < 0.55:
+            segs.append(('op', draw_op(list(range(n)))))
+        else:
+            wires = rng.sample(range(n), rng.choice([1, 1, 2]) if n >= 2 else 1)
+            ops_ = [draw_op(wires) for _ in range(rng.randint(1, 3))]
+            if rng.random() < 0.6:
+                ops_.insert(rng.randrange(len(ops_) + 1), circuits.Op(gates.G('GlobalPhase', dict(rads=rng.choice([math.pi / 2, math.pi, 0.7, -1.1, math.pi / 3])), ()), []))
+            segs.append(('block', ops_, rng.choice([1, 2, 2, 3, -1, -2, 4])))
+    if not any(s[0] == 'block' for s in segs):
+        w = [rng.randrange(n)]
+        segs.append(('block', [draw_op(w), circuits.Op(gates.G('GlobalPhase', dict(rads=math.pi / 2), ()), [])], 2))
+    case = BlockCase([2] * n, segs)
+    case.all_entries = True
+    return case
+
+
+def eigen_grid(tier):
+    """Every (exponent, global shift) combination of special values for the gate families the simulators treat specially or that
+    have integer-phase short-cuts, inside a fixed three-qubit context, through a fixed list of entry points (both split settings)."""
+    fams = ['SwapPow', 'ISwapPow', 'CZPow', 'XPow', 'ZPow'] + ([] if tier == 'quick' else ['CXPow', 'YPow', 'HPow', 'ZZPow', 'XXPow', 'YYPow', 'CYPow'])
+    exps = [1.0, 3.0, -1.0, 2.0] + ([] if tier == 'quick' else [0.5, 5.0, -3.0, 4.0])
+    shifts = [0.0, 1.0, -1.0, 0.5] + ([] if tier == 'quick' else [2.0, 1 / 3, -0.5, 3.0])
+    out = []
+    E = lambda fam, e, s=0.0: gates.G(fam, dict(e=e, s=s), gates.EIG_SHAPE.get(fam, (2, 2)))
+    for fam in fams:
+        for e in exps:
+            for sft in shifts:
+                g = E(fam, e, sft)
+                ops_ = [circuits.Op(E('YPow', 0.3), [0]), circuits.Op(E('XPow', 0.4), [1]),
+                        circuits.Op(g, [0, 1][:len(g.shape)]), circuits.Op(E('HPow', 1.0), [1]), circuits.Op(E('CZPow', 0.5), [1, 2]),
+                        circuits.Op(E('ISwapPow', 0.5), [2, 0])]        # the gate under test appears once: a sign must not cancel
+                case = circuits.Case([2, 2, 2], ops_, ['E'] * len(ops_))
+                case.all_entries = 'grid'
+                out.append(case)
+    return out
+
+
+def fixed_entry_points(ctx, cirq, mods, case):
+    """A fixed list of entry points (no random choice of which): used for the grids and the block circuits."""
+    rng = ctx.rng
+    c, qs = case.circuit(cirq, mods)
+    n = len(case.dims)
+    dim = int(np.prod(case.dims)) if n else 1
+    ident = list(range(n))
+    out = []
+    v0 = random_state(rng, dim)
+    k0 = rng.randrange(dim)
+    for split in (True, False):
+        r = cirq.Simulator(dtype=np.complex128, split_untangled_states=split).simulate(c, qubit_order=qs, initial_state=k0)
+        out.append((f'Simulator.simulate[complex128,split={split},int]', ident, basis_vec(dim, k0), np.asarray(r.final_state_vector), 'vec', TOL128))
+    v = c.final_state_vector(initial_state=v0, qubit_order=qs, dtype=np.complex128)
+    out.append(('Circuit.final_state_vector', ident, v0, np.asarray(v), 'vec', TOL128))
+    if dim <= 16 and all(cirq.has_unitary(op) for op in c.all_operations()):
+        order = order_perm(rng, n)
+        u = c.unitary(qubit_order=[qs[w] for w in order], qubits_that_should_be_present=qs)
+        out.append(('Circuit.unitary', order, None, np.asarray(u), 'unitary', TOL128))
+    if case.all_entries == 'grid':
+        return out
+    v = cirq.final_state_vector(c, initial_state=k0, qubit_order=qs, dtype=np.complex128)
+    out.append(('cirq.final_state_vector', ident, basis_vec(dim, k0), np.asarray(v), 'vec', TOL128))
+    last = None
+    for step in cirq.Simulator(dtype=np.complex128, split_untangled_states=True).simulate_moment_steps(c, qubit_order=qs, initial_state=v0):
+        last = step
+    out.append(('Simulator.simulate_moment_steps[complex128,split=True,vec]', ident, v0, np.asarray(last.state_vector()), 'vec', TOL128))
+    r = cirq.DensityMatrixSimulator(dtype=np.complex128).simulate(c, qubit_order=qs, initial_state=k0)
+    out.append(('DensityMatrixSimulator.simulate', ident, basis_vec(dim, k0), np.asarray(r.final_density_matrix), 'rho', 1e-6))
+    if all(cirq.has_unitary(op) for op in c.all_operations()) and len(c.all_qubits()) == n:
+        order = sorted(range(n), key=lambda w: qs[w])
+        out.append(('cirq.unitary(circuit)', order, None, np.asarray(cirq.unitary(c.freeze())), 'unitary', TOL128))
+    st = cirq.StateVectorSimulationState(initial_state=v0.reshape(case.dims or (1,)) if n else v0, qubits=qs, dtype=np.complex128)
+    for op in c.all_operations():
+        cirq.act_on(op, st)
+    perm = [st.qubits.index(q) for q in qs]
+    vec = np.asarray(st.target_tensor).transpose(perm).reshape(-1) if n else np.asarray(st.target_tensor).reshape(-1)
+    out.append(('cirq.act_on[state vector]', ident, v0, vec, 'vec', TOL128))
+    return out
+
 def entry_points(ctx, cirq, mods, case):
     """Yield (name, order, init_vector(np), result_vector_or_matrix, kind, tol) for the implementation."""
+    if getattr(case, 'all_entries', False):
+        return fixed_entry_points(ctx, cirq, mods, case)
     rng = ctx.rng
     c, qs = case.circuit(cirq, mods)
     n = len(case.dims)
